@@ -252,6 +252,22 @@ def c08(rng, tier):
                 try: l, Q = a.eig(U(Ad.copy()))
                 except Exception as e: yield case, 'raises %s: %s' % (type(e).__name__, str(e)[:100])
                 else: yield case, (None if close(PA.matmul(Ad.astype(Q.data.dtype), Q.data), PA.matmul(Q.data, diagpoly(l.data)), 1e-7) else 'A Q != Q diag(lambda) mod t^D')
+                # complex input (UTPM.eig casts back to real only when NOTHING is lost): complex general spectrum, and complex Hermitian (real spectrum, complex eigenvectors)
+                for ckind in ('complex general', 'complex hermitian'):
+                    Br = poly(rng, D, P, (n, n)); Bi = poly(rng, D, P, (n, n))
+                    if ckind == 'complex hermitian':
+                        Ac = (Br + Br.transpose(0, 1, 3, 2)) + 1j * (Bi - Bi.transpose(0, 1, 3, 2))
+                        for p in range(P):
+                            W, _ = numpy.linalg.qr(rnd_arr(rng, (n, n)) + 1j * rnd_arr(rng, (n, n)) + 2 * numpy.eye(n)); Ac[0, p] = W.dot(numpy.diag(numpy.arange(1., n + 1) + p)).dot(W.conj().T)
+                            Ac[0, p] = 0.5 * (Ac[0, p] + Ac[0, p].conj().T)
+                    else:
+                        Ac = Br + 1j * Bi
+                        for p in range(P):
+                            V = rnd_arr(rng, (n, n)) + 1j * rnd_arr(rng, (n, n)) + 2 * numpy.eye(n); Ac[0, p] = V.dot(numpy.diag(numpy.arange(1., n + 1) + p + 1j * numpy.arange(n))).dot(numpy.linalg.inv(V))
+                    case = {'fn': 'eig', 'input': ckind, 'n': n, 'D': D, 'P': P}
+                    try: l, Q = a.eig(U(Ac.copy()))
+                    except Exception as e: yield case, 'raises %s: %s' % (type(e).__name__, str(e)[:100])
+                    else: yield case, (None if close(PA.matmul(Ac, Q.data.astype(complex)), PA.matmul(Q.data.astype(complex), diagpoly(l.data.astype(complex))), 1e-7) else 'A Q != Q diag(lambda) mod t^D (%s input; Q dtype %s)' % (ckind, Q.data.dtype))
         # ---------------- SVD
         for (m, n) in ((2, 2), (3, 3), (3, 2)):
             Ad = poly(rng, D, P, (m, n))
